@@ -69,6 +69,7 @@ func (e *Engine) Prelude() string {
 (assert (forall ((A (Array Int Int)) (o Int) (B Bytes) (i Int)) (! (= (select (wr A o B) i) (ite (and (<= o i) (< i (+ o (blen B)))) (bat B (- i o)) (select A i))) :pattern ((select (wr A o B) i)))))
 (assert (forall ((A (Array Int Int)) (o Int) (B Bytes) (o2 Int) (l2 Int)) (! (=> (and (= o2 o) (= l2 (blen B))) (= (view (wr A o B) o2 l2) B)) :pattern ((view (wr A o B) o2 l2)))))
 (assert (forall ((A (Array Int Int)) (o Int) (B Bytes) (o2 Int) (l2 Int)) (! (=> (or (<= (+ o2 l2) o) (<= (+ o (blen B)) o2)) (= (view (wr A o B) o2 l2) (view A o2 l2))) :pattern ((view (wr A o B) o2 l2)))))
+(assert (forall ((A (Array Int Int)) (o Int) (B Bytes) (o2 Int) (l2 Int)) (! (=> (and (<= o o2) (<= 0 l2) (<= (+ o2 l2) (+ o (blen B)))) (= (view (wr A o B) o2 l2) (bsub B (- o2 o) (+ (- o2 o) l2)))) :pattern ((view (wr A o B) o2 l2)))))
 (assert (forall ((a Bytes) (b Bytes)) (! (= (blen (bcat a b)) (+ (blen a) (blen b))) :pattern ((bcat a b)))))
 (assert (forall ((a Bytes) (b Bytes) (i Int)) (! (= (bat (bcat a b) i) (ite (< i (blen a)) (bat a i) (bat b (- i (blen a))))) :pattern ((bat (bcat a b) i)))))
 (assert (forall ((a Bytes)) (! (= (bcat bempty a) a) :pattern ((bcat bempty a)))))
@@ -265,6 +266,48 @@ func (e *Engine) Prelude() string {
 		// consequences of the two defining axioms, stated for the shapes that occur (adding a key, the empty set)
 		sb.WriteString("(assert (forall ((D (Array Any Bool)) (k Any) (l Int)) (! (= (has_int (store D k true) l) (or (has_int D l) (and (any_is_int k) (= (any_int_val k) l)))) :pattern ((has_int (store D k true) l)))))\n")
 		sb.WriteString("(assert (forall ((l Int)) (! (not (has_int ((as const (Array Any Bool)) false) l)) :pattern ((has_int ((as const (Array Any Bool)) false) l)))))\n")
+	}
+	// reflect-level views of an interface value: signed / unsigned integer kinds (named types included) and byte-slice kinds
+	{
+		sb.WriteString("(declare-fun other_canint (Int) Bool)\n(declare-fun other_canuint (Int) Bool)\n(declare-fun other_isbytes (Int) Bool)\n(declare-fun other_int (Any) Int)\n(declare-fun other_bytes (Any) Slice)\n")
+		var ci, cu, cb, iv, uv, bv strings.Builder
+		ci.WriteString("(define-fun any_canint ((a Any)) Bool (or (and ((_ is A_other) a) (other_canint (other_tid a)))")
+		cu.WriteString("(define-fun any_canuint ((a Any)) Bool (or (and ((_ is A_other) a) (other_canuint (other_tid a)))")
+		cb.WriteString("(define-fun any_isbytes ((a Any)) Bool (or (and ((_ is A_other) a) (other_isbytes (other_tid a)))")
+		iv.WriteString("(define-fun any_intval ((a Any)) Int ")
+		uv.WriteString("(define-fun any_uintval ((a Any)) Int ")
+		bv.WriteString("(define-fun any_bytesval ((a Any)) Slice ")
+		ni, nu, nb := 0, 0, 0
+		for _, c := range cons {
+			switch ut := c.T.Underlying().(type) {
+			case *types.Basic:
+				if ut.Info()&types.IsInteger != 0 && ut.Info()&types.IsUnsigned == 0 {
+					fmt.Fprintf(&ci, " ((_ is %s) a)", c.Con)
+					fmt.Fprintf(&iv, "(ite ((_ is %s) a) (%s a) ", c.Con, c.Sel)
+					ni++
+				}
+				if ut.Info()&types.IsInteger != 0 && ut.Info()&types.IsUnsigned != 0 {
+					fmt.Fprintf(&cu, " ((_ is %s) a)", c.Con)
+					fmt.Fprintf(&uv, "(ite ((_ is %s) a) (%s a) ", c.Con, c.Sel)
+					nu++
+				}
+			case *types.Slice:
+				if b, ok := ut.Elem().Underlying().(*types.Basic); ok && b.Kind() == types.Uint8 {
+					fmt.Fprintf(&cb, " ((_ is %s) a)", c.Con)
+					fmt.Fprintf(&bv, "(ite ((_ is %s) a) (%s a) ", c.Con, c.Sel)
+					nb++
+				}
+			}
+		}
+		ci.WriteString("))\n")
+		cu.WriteString("))\n")
+		cb.WriteString("))\n")
+		iv.WriteString("(other_int a)" + strings.Repeat(")", ni) + ")\n")
+		uv.WriteString("(other_int a)" + strings.Repeat(")", nu) + ")\n")
+		bv.WriteString("(other_bytes a)" + strings.Repeat(")", nb) + ")\n")
+		sb.WriteString(ci.String() + cu.String() + cb.String() + iv.String() + uv.String() + bv.String())
+		// the non-scalar values the CBOR decoder puts into an interface (cbor.Tag, big.Int: structs) are neither integers nor byte slices
+		fmt.Fprintf(&sb, "(assert (and (not (other_canint %d)) (not (other_canuint %d)) (not (other_isbytes %d))))\n", tidDecOther, tidDecOther, tidDecOther)
 	}
 	// any_hashable
 	var hb strings.Builder
